@@ -411,14 +411,8 @@ inductive UserEvent where
   | disconnect (p : Disconnect)
   deriving Repr, BEq, DecidableEq
 
-/-- `handle_user_event` -/
-def Engine.handleUser (e : Engine) (ev : UserEvent) : Engine × Res :=
-  let (packet, user, q, front) : Packet × Option (Nat × Option Nat) × QueueKind × Bool :=
-    match ev with
-    | .publish p i t => (.publish p, some (i, t), .user, false)
-    | .subscribe p i t => (.subscribe p, some (i, t), .user, false)
-    | .unsubscribe p i t => (.unsubscribe p, some (i, t), .user, false)
-    | .disconnect p => (.disconnect p, none, .high, true)
+/-- the common part of `handle_user_event`: create the operation, apply the submission-time offline policy, enqueue -/
+def Engine.submit (e : Engine) (packet : Packet) (user : Option (Nat × Option Nat)) (q : QueueKind) (front : Bool) : Engine × Res :=
   let (e1, id) := e.createOp packet user
   if !e1.opPassesPolicy packet then
     let (e2, _) := e1.completeFailure id "OfflineQueuePolicyFailed"
@@ -426,6 +420,14 @@ def Engine.handleUser (e : Engine) (ev : UserEvent) : Engine × Res :=
   else match e1.enqueue id q front with
     | some e2 => (e2, .ok)
     | none => (e1, .panic "enqueue_nonexistent_operation")
+
+/-- `handle_user_event` -/
+def Engine.handleUser (e : Engine) (ev : UserEvent) : Engine × Res :=
+  match ev with
+  | .publish p i t => e.submit (.publish p) (some (i, t)) .user false
+  | .subscribe p i t => e.submit (.subscribe p) (some (i, t)) .user false
+  | .unsubscribe p i t => e.submit (.unsubscribe p) (some (i, t)) .user false
+  | .disconnect p => e.submit (.disconnect p) none .high true
 
 /-! ### connection opened / closed / write completion -/
 
